@@ -304,3 +304,14 @@ def run(facts, rep, ctx):
     round4.vd2(facts, rep)
     round4.tb4c(facts, rep)
 
+
+
+_run_before_round5 = run
+
+
+def run(facts, rep, ctx):
+    """rules added after the fourth seeding round (rules/round5.py)"""
+    _run_before_round5(facts, rep, ctx)
+    from . import round5
+    round5.tb4b(facts, rep)
+    round5.co1(facts, rep)
